@@ -32,8 +32,9 @@ def prove(assumptions, goal, timeout_ms=DEFAULT_TIMEOUT_MS, seed=0, use_cvc5=Tru
     fs = [f for f in assumptions if not z3.is_true(f)] + [neg] + list(extra)
     fs = propagate_constants(fs)
     inst = axioms.instantiate(fs)
-    # portfolio: nlsat tactic (fast on pure polynomial identities, gives up at once
-    # otherwise) -> z3 default (short) -> cvc5 -> z3 default (full budget, other seed)
+    # portfolio: z3 default (3 s) -> nlsat tactic (decides polynomial identities, also through
+    # uninterpreted terms, in ms-seconds where the default solver times out) -> z3 default
+    # (10 s) -> cvc5 -> z3 default (full budget, other seed)
     def nlsat(budget):
         try:
             tac = z3.Then("simplify", "solve-eqs", "qfnra-nlsat").solver()
@@ -43,28 +44,34 @@ def prove(assumptions, goal, timeout_ms=DEFAULT_TIMEOUT_MS, seed=0, use_cvc5=Tru
             return tac.check()
         except z3.Z3Exception:
             return z3.unknown
-    short = min(timeout_ms, 10000)
-    s = _mk_solver(short, seed)
-    s.add(*fs)
-    s.add(*inst)
-    r = s.check()
+
+    def default(budget, sd):
+        s = _mk_solver(budget, sd)
+        s.add(*fs)
+        s.add(*inst)
+        r = s.check()
+        return r, s
+
+    r, s = default(min(timeout_ms, 3000), seed)
     if r == z3.unsat:
         return Verdict("proved", time.time() - t0, "z3", n_instances=len(inst))
     if r == z3.sat:
         return Verdict("failed", time.time() - t0, "z3", model=s.model(), n_instances=len(inst))
     reason = s.reason_unknown()
-    if not portfolio:
-        return Verdict("unknown", time.time() - t0, "z3", n_instances=len(inst), reason=reason)
-    if nlsat(min(timeout_ms, 15000)) == z3.unsat:
+    if nlsat(min(timeout_ms, 12000)) == z3.unsat:
         return Verdict("proved", time.time() - t0, "z3-nlsat", n_instances=len(inst))
+    if not portfolio:
+        return Verdict("unknown", time.time() - t0, "z3+nlsat", n_instances=len(inst), reason=reason)
+    r, s = default(min(timeout_ms, 10000), seed)
+    if r == z3.unsat:
+        return Verdict("proved", time.time() - t0, "z3", n_instances=len(inst))
+    if r == z3.sat:
+        return Verdict("failed", time.time() - t0, "z3", model=s.model(), n_instances=len(inst))
     if use_cvc5:
         v = _cvc5_check(s, min(timeout_ms, 15000))
         if v is not None:
             return Verdict(v, time.time() - t0, "cvc5", n_instances=len(inst), reason="z3: " + reason)
-    s2 = _mk_solver(timeout_ms, seed + 17)
-    s2.add(*fs)
-    s2.add(*inst)
-    r2 = s2.check()
+    r2, s2 = default(timeout_ms, seed + 17)
     if r2 == z3.unsat:
         return Verdict("proved", time.time() - t0, "z3(seed2)", n_instances=len(inst))
     if r2 == z3.sat:
